@@ -21,7 +21,7 @@
    Interior pointers are not modelled (Reflect/Heap.v). *)
 From Coq Require Import List NArith.
 From Dials Require Import Base.Outcome Reflect.Ty Reflect.Heap Copy.DeepCopy Copy.DeepCopySpec
-  Copy.DeepCopyInv Copy.DeepCopyTerm Copy.DeepCopyBisim Copy.DeepCopySharing Copy.DeepCopyFacts.
+  Copy.DeepCopyInv Copy.DeepCopyTerm Copy.DeepCopyBisim Copy.DeepCopySharing Copy.DeepCopyTotal Copy.DeepCopyFacts.
 Import ListNotations.
 Open Scope N_scope.
 
@@ -31,6 +31,15 @@ Theorem deep_copy_terminates : forall h n0 R D rk v fuel,
   c03_guard h n0 R D rk v = true -> (copy_fuel n0 R D <= fuel)%nat ->
   deep_copy true fuel h n0 v <> OutOfFuel.
 Proof. exact deep_copy_terminates_l. Qed.
+
+(* ... and succeeds: on a kind-correct heap (every reference leads to an object
+   of its kind, every slice lies inside its backing array, interface values
+   hold concrete values - c03_guard_total adds wf_kindsb to c03_guard) the
+   copy returns; the fixed copier has no panic or error outcome. *)
+Theorem deep_copy_succeeds : forall h n0 R D rk v fuel,
+  c03_guard_total h n0 R D rk v = true -> (copy_fuel n0 R D <= fuel)%nat ->
+  exists st' v', deep_copy true fuel h n0 v = Done (st', v').
+Proof. exact deep_copy_succeeds_l. Qed.
 
 (* ... and every pointer / map node is expanded at most once *)
 Theorem deep_copy_expands_once : forall h n0 v fuel st' v',
@@ -73,6 +82,7 @@ Theorem deep_copy_fresh : forall h n0 v fuel st' v',
 Proof. exact deep_copy_fresh_b. Qed.
 
 Print Assumptions deep_copy_terminates.
+Print Assumptions deep_copy_succeeds.
 Print Assumptions deep_copy_expands_once.
 Print Assumptions deep_copy_bisimilar.
 Print Assumptions deep_copy_sharing.
